@@ -170,7 +170,7 @@ func (e *Engine) VerifyFunc(fn *ssa.Function, mode string) (rep *FuncReport) {
 	if fc != nil && !fc.NoReturn {
 		n := 0
 		for _, o := range outs {
-			if o.panic || n >= 4 {
+			if o.panic || n >= 16 {
 				continue
 			}
 			n++
